@@ -10,10 +10,11 @@ abstract register `logical s = dst <|> src`, every other step leaves the abstrac
 and a quiescent state after the commit has `src = none` (so the register content lives exactly
 once, on the destination).
 
-This file: the command classification the pull path relies on; the two executions of the model —
-both reproduced on the implementation with the gate scheduler, findings F03a and F03b — that
-falsify the statement at full strength; and `C03_register_partial`: under the two hypotheses that
-exclude exactly these findings (`GoodStep`) the invariant `MigInv` (`UmProofs/MigrationInv.lean`)
+This file: the command classification the pull path relies on (`classification_sound`, full since
+fix ddfb301 of finding F03a); the execution of the model — reproduced on the implementation with
+the gate scheduler, finding F03b — that falsifies the statement at full strength; and
+`C03_register_partial`: under the one hypothesis that excludes exactly this finding (`GoodStep`)
+the invariant `MigInv` (`UmProofs/MigrationInv.lean`)
 is inductive and the statement holds for the full model: slow path included, any number of backend
 connections (in-flight commands of different sends are unordered), both redirect modes, any number
 of concurrent client operations, spurious slot-mutex contention.
@@ -33,33 +34,27 @@ def canDeleteNames : List String :=
    "HDEL", "LPOP", "RPOP", "RPOPLPUSH", "LREM", "LTRIM", "BLPOP", "BRPOP", "BRPOPLPUSH",
    "SPOP", "SREM", "SMOVE", "ZREM", "ZPOPMIN", "ZPOPMAX", "BZPOPMIN", "BZPOPMAX",
    "ZREMRANGEBYLEX", "ZREMRANGEBYRANK", "ZREMRANGEBYSCORE", "RENAME",
-   "SDIFFSTORE", "SINTERSTORE", "ZINTERSTORE", "ZUNIONSTORE"]
+   "SDIFFSTORE", "SINTERSTORE", "SUNIONSTORE", "ZINTERSTORE", "ZUNIONSTORE"]
 
 /-- the path a command name takes at the importing proxy: `true` = UMSYNC push path -/
 def pushPath (name : String) : Bool := requiresBlocking (nonBlockingType (dataCmdType (bytesOf name)))
 
-/-- every deleting command that has its own `DataCmdType` goes through the push path (BLPOP… are
-covered through the executor's rewrite to LPOP… before dispatch) -/
-theorem classification_sound_partial :
-    ∀ n ∈ canDeleteNames, dataCmdType (bytesOf n) ≠ "Others" → pushPath n = true := by
+/-- **every command that can delete its key requires blocking migration**: it goes through the
+UMSYNC push path (BLPOP… are covered through the executor's rewrite to LPOP… before dispatch).
+Full statement; before fix ddfb301 the `*STORE` family was typed `Others` (finding F03a). -/
+theorem classification_sound : ∀ n ∈ canDeleteNames, pushPath n = true := by
   decide +kernel
 
-/-- the full statement is false: supported commands typed `Others` take the pull path (F03a) -/
-theorem classification_full_false :
-    ¬ (∀ n ∈ canDeleteNames, bytesOf n ∈ Um.Gen.supportedCommands → pushPath n = true) := by
-  intro h
-  exact absurd (h "SINTERSTORE" (by decide +kernel) (by decide +kernel)) (by decide +kernel)
-
-/-- exactly these deleting commands miss the push path -/
-theorem classification_exceptions :
-    canDeleteNames.filter (fun n => !pushPath n) = ["SDIFFSTORE", "SINTERSTORE", "ZINTERSTORE", "ZUNIONSTORE"] := by
+/-- no deleting command is left in the catch-all type -/
+theorem classification_no_others : ∀ n ∈ canDeleteNames, dataCmdType (bytesOf n) ≠ "Others" := by
   decide +kernel
 
-/-- the model's commands: a deleting command is on the push path, except SINTERSTORE -/
-theorem model_classification (c : Cmd) : c.deletes = true → c.blocking = true ∨ c = .sinterstore := by
-  cases c <;> simp [Cmd.deletes] <;> decide +kernel
+/-- the model's commands: every deleting command is on the push path (this discharges the former
+first hypothesis of `GoodStep`) -/
+theorem model_classification (c : Cmd) : c.deletes = true → c.blocking = true := deletes_blocking c
 
-theorem model_paths : Cmd.sinterstore.blocking = false ∧ Cmd.del.blocking = true ∧
+/-- regression for F03a: SINTERSTORE is a push-path command now; reads and plain writes pull -/
+theorem model_paths : Cmd.sinterstore.blocking = true ∧ Cmd.del.blocking = true ∧
     Cmd.get.blocking = false ∧ (∀ v, (Cmd.set v).blocking = false) ∧ (∀ v, (Cmd.getset v).blocking = false) := by
   refine ⟨by decide +kernel, by decide +kernel, by decide +kernel, ?_, ?_⟩
   · intro v
@@ -76,12 +71,16 @@ def handshake : List Label :=
   [.dlvPreCheck, .tau .srcPreCheckOk, .tau .startBlocking, .tau .blockingDone, .dlvPreSwitch,
    .tau .srcPreSwitchOk, .tau .stopBlocking]
 
-/-- F03a: `SINTERSTORE k <missing>` (pull path) runs while the source copy is still there -/
+/-- regression for F03a (`corpus/C03/migration.f03a.ops`): `SINTERSTORE k <missing>` arrives while a
+scan batch holds a DUMP of the key; it now takes the push path, is queued behind the batch (slow
+path) and deletes the key only after the batch's RESTORE and DEL -/
 def f03aTrace : List Label := handshake ++
-  [.inv 1 .D .sinterstore, .exe (.op 1) .dst .exists (.int 0), .tau (.existsLock 1),
-   .exe .crit .src .dump (.val 5), .exe .crit .src .pttl (.int (-1)),
-   .tau .scanLock, .exe .scan .src .pttl (.int (-1)), .exe .scan .src .dump (.val 5),
-   .exe .crit .dst (.restore 5) .ok]
+  [.tau .scanLock, .exe .scan .src .pttl (.int (-1)), .exe .scan .src .dump (.val 5),
+   .inv 1 .D .sinterstore, .dlvSync false,
+   .exe .scan .dst (.restore 5) .ok, .exe .scan .src .del (.int 1), .tau .scanEnd,
+   .tau .scanSlow, .exe .scan .src .pttl (.int (-2)), .exe .scan .src .dump .nil, .tau .scanEnd,
+   .tau .syncDone, .exe (.op 1) .dst (.client .sinterstore) (.int 0), .ret 1 (.int 0),
+   .tau .scanFinish, .dlvFinalSwitch, .tau .srcFinalSwitchOk, .commit .D, .commit .S]
 
 /-- F03b: a pull keeps its DUMP across scan end, FINALSWITCH and both commits; a DEL sent after the
 commit runs directly at the destination; then the old RESTORE lands -/
@@ -95,21 +94,9 @@ def f03bTrace : List Label := handshake ++
 
 def i5 : Sys := Sys.init (some 5) false
 
-theorem f03a_runs : (runLabels i5 f03aTrace).isSome = true := by decide +kernel
 theorem f03b_runs : (runLabels i5 f03bTrace).isSome = true := by decide +kernel
 
-/-- **the full-strength statement is false (1)**: a reachable step that executes an acknowledged
-deleting command and leaves the abstract register non-empty (the stale source copy shows through;
-the scan's RESTORE then materialises it on the destination) -/
-theorem C03_register_full_false_pull_delete :
-    ∃ s l s', Reach i5 s ∧ step? s l = some s' ∧ ¬ RegisterStep s l s' := by
-  refine ⟨(runLabels i5 f03aTrace).get f03a_runs, .exe (.op 1) .dst (.client .sinterstore) (.int 0),
-    ((step? ((runLabels i5 f03aTrace).get f03a_runs) (.exe (.op 1) .dst (.client .sinterstore) (.int 0))).getD i5),
-    reach_of_runLabels Reach.refl _ (Option.some_get f03a_runs).symm, by decide +kernel, ?_⟩
-  simp only [RegisterStep]
-  decide +kernel
-
-/-- **the full-strength statement is false (2)**: only GET and DEL are issued; the RESTORE of a
+/-- **the full-strength statement is false**: only GET and DEL are issued; the RESTORE of a
 pull that started before the commit lands after an acknowledged post-commit DEL -/
 theorem C03_register_full_false_commit_race :
     ∃ s l s', Reach i5 s ∧ step? s l = some s' ∧ ¬ RegisterStep s l s' := by
@@ -139,22 +126,22 @@ example : ∃ s, runLabels i5 goodTrace = some s ∧ s.src = none ∧ s.dst = no
 
 /-! ## the partial theorem
 
-FULL STATEMENT (false for the code as it is — `C03_register_full_false_pull_delete`,
-`C03_register_full_false_commit_race`):
+FULL STATEMENT (false for the code as it is — `C03_register_full_false_commit_race`, F03b):
 
     C03_register  : ∀ v0 a s s' l, Reach (Sys.init v0 a) s → step? s l = some s' → RegisterStep s l s'
     C03_end_state : ∀ v0 a s, Reach (Sys.init v0 a) s → Quiescent s → s.src = none ∧ s.dst = logical s
 
 What is proved below is the same with `Reach` replaced by `ReachG` (every step satisfies
-`GoodStep`): (1) no client command with `deletes ∧ ¬ blocking` is invoked, (2) `commit D` happens
-only in states where the key-lock holder owns no DUMP (`critDump s = none`).
+`GoodStep`): `commit D` happens only in states where the key-lock holder owns no DUMP
+(`critDump s = none`).  The former hypothesis about deleting commands outside
+`requires_blocking_migration` (F03a) is gone: `model_classification`.
 -/
 
 /-- the invariant holds in every state reachable by good steps -/
 theorem C03_invariant (v0 : Option Val) (a : Bool) {s : Sys} (h : ReachG (Sys.init v0 a) s) : MigInv s :=
   miginv_reachG (miginv_init v0 a) h
 
-/-- **C03 (partial: hypotheses `GoodStep` = no F03a command, no F03b commit)**: every step of every
+/-- **C03 (partial: hypothesis `GoodStep` = no F03b commit)**: every step of every
 execution is a refinement step of the atomic register `logical`: the execution of a client
 command — which lies between its invocation and its response — answers and updates the register
 exactly as the sequential specification `Cmd.apply`; no other step (scan batches, pulls, pushes,
@@ -198,8 +185,14 @@ example : ∃ s, runLabelsG i5 goodTrace = some s ∧ Quiescent s ∧ s.src = no
   refine ⟨_, (Option.some_get good_runsG).symm, ?_, by decide +kernel, by decide +kernel⟩
   refine ⟨by decide +kernel, by decide +kernel, by decide +kernel, by decide +kernel, by decide +kernel, by decide +kernel⟩
 
-/-- the two finding traces violate exactly one hypothesis each -/
-theorem f03a_not_good : runLabelsG i5 f03aTrace = none := by decide +kernel
+/-- the F03a regression trace is a good run now: the delete sticks, the key is on neither node -/
+theorem f03a_runsG : (runLabelsG i5 f03aTrace).isSome = true := by decide +kernel
+
+theorem f03a_regression : ∃ s, runLabelsG i5 f03aTrace = some s ∧ Quiescent s ∧ s.src = none ∧ s.dst = none := by
+  refine ⟨_, (Option.some_get f03a_runsG).symm, ?_, by decide +kernel, by decide +kernel⟩
+  refine ⟨by decide +kernel, by decide +kernel, by decide +kernel, by decide +kernel, by decide +kernel, by decide +kernel⟩
+
+/-- the F03b trace violates the remaining hypothesis -/
 theorem f03b_not_good : runLabelsG i5 f03bTrace = none := by decide +kernel
 
 end Um.Mig.C03
